@@ -691,12 +691,10 @@ def main(chk: Check):
     # ---- evaluate model and spec inside Coq (streams in parallel)
     ENTRY_IN = "N * (N * N) * list entry"
     streams = [
-        ("pre", ENTRY_IN, pre_cases, ["mismatches run_pre cases",
-                                      "where_ (fun i r => negb (spec_pre_ok i r)) cases"], 155, ""),
+        ("pre_bad", ENTRY_IN, pre_cases + bad_cases, ["mismatches run_pre cases",
+                                                      "where_ (fun i r => negb (spec_pre_ok i r)) cases"], 200, ""),
         ("sweep", "(N * N) * (N * option N * option N) * (N * nat)", sweep_cases, ["mismatches run_sweep cases"], (14 if not full else 23), sweep_pre),
         ("direct", "bool * trig * list entry", direct_cases, ["mismatches run_direct cases"], 180, ""),
-        ("bad", ENTRY_IN, bad_cases, ["mismatches run_pre cases",
-                                      "where_ (fun i r => negb (spec_pre_ok i r)) cases"], 155, ""),
         ("order", "N", order_cases, ["mismatches run_order cases"], 120, ""),
     ]
     spec_bad, corr_bad = [], []
